@@ -72,6 +72,8 @@ func (g *gen) finishCkpt(db int, id uint64) {
 	f1, f2 := 0, 0
 	if g.r.Chance(1, 12) {
 		f1 = 1 // the WAL save fails
+	} else if g.r.Chance(1, 6) {
+		f1 = 10 + g.r.Intn(3) // a Write of one WAL segment fails
 	} else if g.r.Chance(1, 10) {
 		f2 = 1 + g.r.Intn(2) // the list save fails (write / delete of a pending WAL)
 	}
@@ -459,6 +461,121 @@ func (g *gen) rescale() {
 	g.restoreAll(ya, false)
 }
 
+// a flush completes while a compaction that has already computed its change set is parked before applying it; then a
+// checkpoint, more work, crash, restore.
+func (g *gen) midCompaction() {
+	g.writes(0, 1+g.r.Intn(2))
+	g.big(0)
+	g.add(opJ{Op: "drain", DB: 0})
+	for round := 0; round < 1+g.r.Intn(2); round++ {
+		g.writes(0, 1+g.r.Intn(2))
+		g.big(0)
+		for i := 0; i < 3; i++ {
+			g.add(opJ{Op: "step", DB: 0, Task: "flush"})
+		}
+		// the compaction: begin -> iter -> (wrote its tables) swap point
+		g.add(opJ{Op: "step", DB: 0, Task: "compact"})
+		g.add(opJ{Op: "step", DB: 0, Task: "compact"})
+		if g.r.Chance(1, 4) {
+			g.add(opJ{Op: "step", DB: 0, Task: "compact"})
+		}
+		// meanwhile a new memtable fills and is flushed completely
+		g.writes(0, 1+g.r.Intn(2))
+		g.big(0)
+		for i := 0; i < 2+g.r.Intn(2); i++ {
+			g.add(opJ{Op: "step", DB: 0, Task: "flush"})
+		}
+		if g.r.Bool() {
+			id := g.ckpt(0)
+			g.finishCkpt(0, id)
+		}
+		g.add(opJ{Op: "drain", DB: 0})
+	}
+	g.writes(0, g.r.Intn(3))
+	id := g.ckpt(0)
+	g.add(opJ{Op: "drain", DB: 0})
+	g.writes(0, g.r.Intn(2))
+	g.add(opJ{Op: "read", DB: 0})
+	g.add(opJ{Op: "crash", DB: 0})
+	g.restoreAll(id, g.r.Bool())
+}
+
+func (g *gen) writesIn(db, n, lo, hi int) {
+	for i := 0; i < n; i++ {
+		k := []int{0, lo + g.r.Intn(hi-lo), 97 + g.r.Intn(5)}
+		if g.r.Chance(1, 6) {
+			g.add(opJ{Op: "del", DB: db, K: k})
+		} else {
+			g.add(opJ{Op: "put", DB: db, K: k, V: g.val()})
+		}
+	}
+}
+
+// scale-in 3 -> 2: three old databases with disjoint key-group ranges take the same checkpoint id; two new databases restore
+// overlapping but different pairs of handles (composite checkpoints with two WAL handles each, one WAL shared); each takes its
+// own checkpoint and drops the restored one: the second one finds the shared WAL already removed and must still remove the other.
+func (g *gen) scaleIn() {
+	ranges := [][2]int{{0, 1}, {1, 3}, {3, 4}}
+	g.add(opJ{Op: "open", Lo: 1, Hi: 3})
+	g.add(opJ{Op: "open", Lo: 3, Hi: 4})
+	g.ndb += 2
+	g.nextID++
+	id := g.nextID
+	g.ids = append(g.ids, id)
+	for db, rg := range ranges {
+		g.writesIn(db, 1+g.r.Intn(3), rg[0], rg[1])
+		if g.r.Bool() {
+			g.add(opJ{Op: "put", DB: db, K: []int{0, rg[0], 120}, V: make([]int, 40)})
+			g.add(opJ{Op: "drain", DB: db})
+			g.writesIn(db, g.r.Intn(2), rg[0], rg[1])
+		}
+		g.add(opJ{Op: "ckpt", DB: db, ID: id})
+		g.add(opJ{Op: "drain", DB: db})
+	}
+	for db := range ranges {
+		g.add(opJ{Op: "crash", DB: db})
+	}
+	nb := hx.Pick(g.r, []string{"live", "op", "needs"})
+	pairs := [][]int{{0, 1}, {1, 2}}
+	if g.r.Bool() {
+		pairs[1] = []int{2, 1}
+	}
+	if g.r.Bool() {
+		pairs[0] = []int{1, 0}
+	}
+	g.add(opJ{Op: "restore", ID: id, Srcs: pairs[0], Lo: 0, Hi: 2, Nb: nb})
+	a := g.ndb
+	g.ndb++
+	g.add(opJ{Op: "restore", ID: id, Srcs: pairs[1], Lo: 2, Hi: 4, Nb: nb})
+	b := g.ndb
+	g.ndb++
+	order := []int{a, b}
+	if g.r.Bool() {
+		order = []int{b, a}
+	}
+	var ys []uint64
+	for _, d := range order {
+		g.add(opJ{Op: "read", DB: d})
+		lo, hi := 0, 2
+		if d == b {
+			lo, hi = 2, 4
+		}
+		g.writesIn(d, 1+g.r.Intn(2), lo, hi)
+		y := g.ckpt(d)
+		ys = append(ys, y)
+		g.add(opJ{Op: "drain", DB: d})
+		g.add(opJ{Op: "retain", DB: d, IDs: []uint64{y}, Fail: 0})
+		if g.r.Chance(1, 3) {
+			g.add(opJ{Op: "gc"})
+		}
+	}
+	g.add(opJ{Op: "crash", DB: a})
+	g.add(opJ{Op: "crash", DB: b})
+	for _, y := range ys {
+		g.restoreAll(y, false)
+	}
+}
+
 func (g *gen) build(name string, params map[string]any) *hx.Case {
 	c := &hx.Case{Name: name, Params: params}
 	for _, o := range g.ops {
@@ -481,9 +598,9 @@ func (eng) Generate(mode, tier string, r *hx.Rand) []*hx.Case {
 		g := &gen{r: r.Fork(), ndb: 1, kgs: 4}
 		params := map[string]any{"mode": mode, "mem": hx.Pick(g.r, []int{45, 60, 60, 90}), "wal": hx.Pick(g.r, []int{1000, 1000, 70}), "tfs": hx.Pick(g.r, []int{60, 80, 200})}
 		kind := ""
-		weights := []string{"random", "random", "parked", "parked", "samedir", "chain", "gc", "faults"}
+		weights := []string{"random", "random", "parked", "parked", "samedir", "chain", "gc", "faults", "midcomp", "midcomp"}
 		if mode == "c09" {
-			weights = []string{"random", "gc", "gc", "chain", "samedir", "faults", "faults", "rescale", "rescale", "rescale"}
+			weights = []string{"random", "gc", "gc", "chain", "samedir", "faults", "faults", "rescale", "rescale", "rescale", "scalein", "scalein"}
 		}
 		switch kind = hx.Pick(g.r, weights); kind {
 		case "random":
@@ -500,6 +617,10 @@ func (eng) Generate(mode, tier string, r *hx.Rand) []*hx.Case {
 			g.faults()
 		case "rescale":
 			g.rescale()
+		case "midcomp":
+			g.midCompaction()
+		case "scalein":
+			g.scaleIn()
 		}
 		out = append(out, g.build(fmt.Sprintf("%s-%s-%d", mode, kind, i), params))
 	}
